@@ -197,6 +197,12 @@ func (m *mappers) ToRange(r comb.Result) (comb.Result, bool) {
 		m.errors = errors.Join(m.errors, fmt.Errorf("invalid repetition range {%d,%d}", low, *up))
 	}
 
+	if low > parser.MaxRepetition || (up != nil && *up > parser.MaxRepetition) {
+		// Such a range would be expanded into an enormous number of copies; it is reported and not expanded.
+		m.errors = errors.Join(m.errors, fmt.Errorf("invalid repetition range: count exceeds %d", parser.MaxRepetition))
+		low, up = 0, new(int)
+	}
+
 	return comb.Result{
 		Val: tuple[int, *int]{
 			p: low,
